@@ -108,6 +108,7 @@ _UEC = None
 
 
 _FAST = False
+_MISSING = object()
 
 
 def fast_selfwait():
@@ -431,7 +432,15 @@ class SimCtl:
             self.sim.add_listener(SimulatorInterface.STARTING_EVENT, self.listener)
 
     def worker(self):
-        return getattr(self.sim, "_Simulator__worker", None)
+        w = getattr(self.sim, "_Simulator__worker", _MISSING)
+        if w is not _MISSING:
+            return w
+        # the private field was renamed: find the run thread among the live threads
+        from pydsol.core.simulator import SimulatorWorkerThread
+        for t in threading.enumerate():
+            if isinstance(t, SimulatorWorkerThread) and t.is_alive() and any(v is self.sim for v in vars(t).values()):
+                return t
+        return None
 
     def wait_quiescent(self, timeout=4.0):
         t0 = _time.time()
